@@ -52,7 +52,8 @@ PatFiles == {"x", "x.js", "bx", "bx.js", "b/x", "b/x.js", "f.js"}
 
 SrcFiles == Under("/src", {"main.js", "f.js", "g.json", "h.mjs", "both.js", "both.json", "both/index.js",
                            "onlyjson.json", "dir/index.js", "dirj/index.json", "dirm/lib/m.js",
-                           "dirx/index.js", "dire/x.js", "x.js", "common.js"})
+                           "dirx/index.js", "dire/x.js", "x.js", "common.js",
+                           "addon.node", "dirn/index.node"})
 PCore == Under(P, {"f.js", "e.mjs", "c.cjs", "g.json", "a.js", "lib/u.js", "lib/index.js",
                    "d/x.js", "d/y.js", "d/index.js", "d/x/z.js", "a/x.js", "x.js"})
 PPat == UNION { Under(P \o "/" \o d, PatFiles) : d \in {"d1", "d2", "d3", "d4", "d5", "d6"} }
@@ -62,7 +63,8 @@ Others == {"/node_modules/r/index.js", "/node_modules/s.js",
            "/node_modules/@s/p/i.js", "/node_modules/@s/p/s.js", "/node_modules/@s/p/pat/k.js",
            "/node_modules/@s/p/other.js", "/node_modules/@s/n/m.js",
            "/linked/l/m.js", "/linked/l/sub/n.js", "/linked/node_modules/k/index.js",
-           "/node_modules/k/index.js", "/node_modules/app/index.js"}
+           "/node_modules/k/index.js", "/node_modules/app/index.js",
+           "/linked/le/m.js", "/linked/le/sub/n.js", "/linked/le/other.js"}
 
 PJNested  == PJ("q", S("nested.js"), "", JUndef, JUndef)
 PJHoisted == PJ("q", S("hoisted.js"), "", JUndef, JUndef)
@@ -76,14 +78,32 @@ Params(fam, exp, pmain, ptype, pidx, pimp, aexp, aimp) ==
   [fam |-> fam, exp |-> exp, pmain |-> pmain, ptype |-> ptype, pidx |-> pidx,
    pimp |-> pimp, aexp |-> aexp, aimp |-> aimp]
 
+PjDirs(full) == {"", P, P \o "/node_modules/q", "/node_modules/q"}
+                  \cup (IF full THEN {"/src/dirm", "/src/dirx", "/node_modules/@s/p", "/node_modules/@s/n",
+                                      "/linked/l", "/linked/le"} ELSE {})
+MkFiles(pat, full, idx) ==
+  SrcFiles \cup PCore \cup QNested \cup QHoisted
+    \cup (IF idx THEN {P \o "/index.js"} ELSE {})
+    \cup (IF pat THEN PPat ELSE {})
+    \cup (IF full THEN Others ELSE {})
+    \cup { d \o "/package.json" : d \in PjDirs(full) }
+\* the four skeletons that occur (zero-arity definitions: evaluated once by TLC)
+FilesPlain     == MkFiles(FALSE, FALSE, TRUE)
+FilesPat       == MkFiles(TRUE, FALSE, TRUE)
+FilesFull      == MkFiles(FALSE, TRUE, TRUE)
+FilesFullNoIdx == MkFiles(FALSE, TRUE, FALSE)
+DirsPlain      == DirsOf(FilesPlain)
+DirsPat        == DirsOf(FilesPat)
+DirsFull       == DirsOf(FilesFull)
+DirsFullNoIdx  == DirsOf(FilesFullNoIdx)
+LinksFull == [l \in {"/node_modules/l", "/node_modules/le"} |->
+                IF l = "/node_modules/l" THEN "/linked/l" ELSE "/linked/le"]
+LinksNone == [l \in {} |-> ""]
+
 TreeOf(pr) ==
-  LET full  == pr.fam \in {"L", "A"}
-      plain == SrcFiles \cup PCore \cup QNested \cup QHoisted
-                 \cup (IF pr.pidx THEN {P \o "/index.js"} ELSE {})
-                 \cup (IF pr.fam \in {"E4", "E5", "I"} THEN PPat ELSE {})
-                 \cup (IF full THEN Others ELSE {})
-      pj == [d \in {"", P, P \o "/node_modules/q", "/node_modules/q"}
-                     \cup (IF full THEN {"/src/dirm", "/src/dirx", "/node_modules/@s/p", "/node_modules/@s/n", "/linked/l"} ELSE {}) |->
+  LET full == pr.fam \in {"L", "A"}
+      pat == pr.fam \in {"E4", "E5", "I"}
+      pj == [d \in PjDirs(full) |->
                CASE d = "" -> PJ("app", JUndef, "", pr.aexp, pr.aimp)
                  [] d = P  -> PJ("p", pr.pmain, pr.ptype, pr.exp, pr.pimp)
                  [] d = P \o "/node_modules/q" -> PJNested
@@ -92,10 +112,12 @@ TreeOf(pr) ==
                  [] d = "/src/dirx" -> PJ("", S("missing"), "", JUndef, JUndef)
                  [] d = "/node_modules/@s/p" -> PJScoped
                  [] d = "/node_modules/@s/n" -> PJ("@s/n", S("m.js"), "", JUndef, JUndef)
-                 [] d = "/linked/l" -> PJ("l", S("m.js"), "", JUndef, JUndef)]
-      files == plain \cup { d \o "/package.json" : d \in DOMAIN pj }
-      links == IF full THEN [l \in {"/node_modules/l"} |-> "/linked/l"] ELSE [l \in {} |-> ""]
-  IN [files |-> files, dirs |-> DirsOf(files), pj |-> pj, links |-> links]
+                 [] d = "/linked/l" -> PJ("l", S("m.js"), "", JUndef, JUndef)
+                 [] d = "/linked/le" -> PJ("le", JUndef, "",
+                                           Obj2(".", S("./m.js"), "./sub/*", S("./sub/*.js")), JUndef)]
+  IN [files |-> IF pat THEN FilesPat ELSE IF ~full THEN FilesPlain ELSE IF pr.pidx THEN FilesFull ELSE FilesFullNoIdx,
+      dirs  |-> IF pat THEN DirsPat ELSE IF ~full THEN DirsPlain ELSE IF pr.pidx THEN DirsFull ELSE DirsFullNoIdx,
+      pj |-> pj, links |-> IF full THEN LinksFull ELSE LinksNone]
 
 -----------------------------------------------------------------------------
 (* value families *)
@@ -130,6 +152,11 @@ Inner == UNION { { JObj(ks, vs) : vs \in [1..2 -> InnerVals] } : ks \in OrdSeqs(
 E3 == UNION { { Obj1(k1, in), Obj2(k1, in, "default", S("./c.cjs")), Obj2("default", S("./c.cjs"), k1, in) }
               : k1 \in {"node", "import", "browser"}, in \in Inner }
         \cup { Obj1(".", Obj2("node", in, "default", S("./c.cjs"))) : in \in Inner }
+        \cup (IF Level >= 2
+              THEN UNION { { Obj1("./a", Obj2(k1, in, "default", S("./c.cjs"))),
+                             JArr(<< Obj1(k1, in), S("./c.cjs") >>) }
+                           : k1 \in {"node", "import"}, in \in Inner }
+              ELSE {})
 
 \* E4: subpath patterns with overlapping prefixes, every key order; each key
 \* has its own target directory so the answer names the key that won
@@ -144,6 +171,7 @@ E4 == { PatObj(ks, {}) : ks \in OrdSeqs(PatKeys, 1) \cup OrdSeqs(PatKeys, 2) \cu
         \cup UNION { { PatObj(ks, {ks[i]}) : i \in 1..2 } : ks \in OrdSeqs(PatKeys, 2) }
         \cup (IF Level >= 2
               THEN UNION { { PatObj(ks, {ks[i]}) : i \in 1..3 } : ks \in OrdSeqs(PatKeys, 3) }
+                   \cup { PatObj(ks, {}) : ks \in OrdSeqs(PatKeys, 4) }
               ELSE {})
         \cup UNION { { PatObj(ks, {}), PatObj(ks, {"./a"}), PatObj(ks, {"./a/x.js"}) }
                      : ks \in { f \in OrdSeqs({"./a", "./a/x.js", "./a/*", "./*"}, 3) : TRUE } }
@@ -180,6 +208,10 @@ ImpLeaf == { S("./src/f.js"), S("./src/missing.js"), S("./src/dir"), S("q"), S("
 ImpMaps == { Obj1("#x", v) : v \in ImpLeaf }
         \cup { ImpObj(ks, {}) : ks \in OrdSeqs(ImpKeys, 1) \cup OrdSeqs(ImpKeys, 2) \cup OrdSeqs(ImpKeys, 3) }
         \cup UNION { { ImpObj(ks, {ks[i]}) : i \in 1..2 } : ks \in OrdSeqs(ImpKeys, 2) }
+        \cup (IF Level >= 2
+              THEN UNION { { ImpObj(ks, {ks[i]}) : i \in 1..3 } : ks \in OrdSeqs(ImpKeys, 3) }
+                   \cup { ImpObj(ks, {}) : ks \in OrdSeqs(ImpKeys, 4) }
+              ELSE {})
         \cup { ImpObj(<< "#x", "#x/*" >>, {}), ImpObj(<< "#x/*", "#x" >>, {"#x"}),
                JObj(<< >>, << >>), JNull, JUndef, JNum, S("./src/f.js") }
 
@@ -220,6 +252,8 @@ Trees == [i \in 1..NT |-> TreeOf(ParamSeq[i])]
 MAIN == "/src/main.js"
 U    == P \o "/lib/u.js"
 LM   == "/linked/l/m.js"
+LEM  == "/linked/le/m.js"
+SJ   == "/node_modules/s.js"     \* an importer outside every package scope
 
 Q(imp, spec, kind, conds) == [imp |-> imp, spec |-> spec, kind |-> kind, conds |-> conds]
 Kinds == {"import", "require"}
@@ -229,19 +263,21 @@ CondSetsFor(j) == IF Mentions(j, "browser") THEN { {}, {"browser"} } ELSE { {} }
 
 SpecsMainOnly == {"p", "p/a", "p/f.js"}
 SpecsSubpath == {"p", "p/a", "p/a/x", "p/a/x.js", "p/a/b/x", "p/a/b/x.js", "p/a/bx", "p/a/bx.js",
-                 "p/x", "p/x.js", "p/f.js", "p/package.json"}
+                 "p/x", "p/x.js", "p/f.js", "p/package.json", "p/a/x%2ejs", "p/a/b%2fx"}
 SpecsBadMatch == {"p/a/x", "p/a/x.js", "p/a/b/x", "p/a/../f.js", "p/a/node_modules/q", "p/a/./x"}
 
 RelSpecs == {"./f.js", "./f", "./g", "./g.json", "./h", "./h.mjs", "./both", "./both.js", "./both.json",
              "./onlyjson", "./dir", "./dir/index", "./dir/index.js", "./dirj", "./dirm", "./dirm/lib/m", "./dirx",
              "./dire", "./missing", "./missing.js", "../src/f.js", "./dir/../f.js", "./dir/./index.js", "/src/f.js",
-             "/src/f", "/src/dir", "./f.js?q=1", "./f.js#frag", "./f?q=1", "../src/dir"}
+             "/src/f", "/src/dir", "./f.js?q=1", "./f.js#frag", "./f?q=1", "../src/dir",
+             "./%66.js", "./f%2ejs", "./dir%2findex.js", "./addon", "./addon.node", "./dirn"}
 BareSpecs == {"p", "p/f", "p/f.js", "p/d", "p/d/x", "p/d/x.js", "p/d/x/z", "p/lib", "p/lib/index", "p/g", "p/c.cjs",
               "p/package.json", "p/missing", "p/a", "p/b/x",
               "q", "q/common", "q/common.js", "q/nested.js", "q/hoisted.js", "r", "r/index.js", "r/index", "s", "s.js",
               "@s/p", "@s/p/sub", "@s/p/pat/k", "@s/p/other.js", "@s/p/i.js", "@s/n", "@s/n/m.js", "@s/n/m", "@s",
               "l", "l/m.js", "l/sub/n.js", "l/sub/n", "l/sub", "k", "missing", "missing/sub", "app", "app/index.js",
-              "#x", "node_modules/q", ".p", "p%2ff.js"}
+              "#x", "node_modules/q", ".p", "p%2ff.js", "p/f%2ejs", "p/d%2fx.js",
+              "le", "le/sub/n", "le/sub/n.js", "le/m.js", "le/other.js"}
 
 Questions(pr) ==
   CASE pr.fam \in {"E1", "E2", "E3"} ->
@@ -261,6 +297,8 @@ Questions(pr) ==
          \cup QSet(U, {"q", "q/common.js", "q/nested.js", "q/hoisted.js", "r", "../f.js", "../f", "../d", "../lib",
                        "./index.js", "p", "p/f.js", "s", "k", "#x"}, { {} })
          \cup QSet(LM, {"k", "./sub/n.js", "./sub/n", "l", "l/sub/n.js", "q", "p"}, { {} })
+         \cup QSet(LEM, {"le", "le/sub/n", "le/other.js", "k", "./sub/n.js"}, { {} })
+         \cup QSet(SJ, {"#x", "p", "q", "r", "./s.js", "./q"}, { {} })
     [] pr.fam = "A" ->
          QSet(MAIN, {"app", "app/sub", "app/pat/f", "app/pat/h", "app/src/f.js", "app/index.js", "appx", "p"},
               { {} })
@@ -360,13 +398,15 @@ ASSUME CompareIsOrder
 \* the first matching key of the sorted expansion keys is the most specific
 \* matching key (longest base, then longest key), whatever the insertion order
 MapOf(pr) == IF pr.fam = "I" THEN pr.aimp ELSE pr.exp
+\* (evaluated on the "ask" states, which the TLC workers generate in parallel;
+\* initial states are generated and checked by one thread)
 MostSpecificWins ==
-  phase = "tree" =>
+  phase = "ask" =>
     LET m == MapOf(ParamSeq[ti]) IN
     (m.k = "obj") =>
+      LET sorted == ExpansionKeys(m) IN
       \A s \in MatchUniverse :
-        LET sorted == ExpansionKeys(m)
-            hits == SelectSeq(sorted, LAMBDA key : PatternMatches(key, s))
+        LET hits == SelectSeq(sorted, LAMBDA key : PatternMatches(key, s))
         IN \A i, j \in 1..Len(hits) : i < j =>
              /\ PATTERN_KEY_COMPARE(hits[i], hits[j]) < 0
              /\ IndexOf(hits[i], "*") >= IndexOf(hits[j], "*")
